@@ -21,7 +21,7 @@ import (
 // must equal the first, and every sub-query must still only use fields the receiving service exposes NOW.
 // The gateway runs without a ServiceSelector here (routing is the planner's own).
 
-var redeployBudget = 60 // gateways built for this oracle per run (quick); raised for the thorough tier in main
+var redeployBudget = 40 // gateways built for this oracle per run (quick); raised for the thorough tier in main
 
 type fieldMove struct {
 	obj, field, from, to string
